@@ -9,6 +9,7 @@ import (
 	"sort"
 
 	"github.com/keep-network/keep-core/pkg/chain"
+	"github.com/keep-network/keep-core/pkg/generator"
 	"github.com/keep-network/keep-core/pkg/net"
 	"github.com/keep-network/keep-core/pkg/protocol/group"
 	"github.com/keep-network/keep-core/pkg/tecdsa"
@@ -124,4 +125,52 @@ func VerifC12NewDoneMessage(
 		signature:     signature,
 		endBlock:      endBlock,
 	}
+}
+
+// VerifC12Sign runs signingExecutor.sign for a single signer (one seat of the
+// wallet) built from the given parts. The caller observes the messages the
+// signing attempts put on the broadcast channel.
+func VerifC12Sign(
+	ctx context.Context,
+	walletPublicKey *ecdsa.PublicKey,
+	signingGroupOperators []chain.Address,
+	memberIndex group.MemberIndex,
+	privateKeyShare *tecdsa.PrivateKeyShare,
+	broadcastChannel net.BroadcastChannel,
+	membershipValidator *group.MembershipValidator,
+	groupParameters *GroupParameters,
+	getCurrentBlock func() (uint64, error),
+	waitForBlock func(context.Context, uint64) error,
+	signingAttemptsLimit uint,
+	message *big.Int,
+	startBlock uint64,
+) error {
+	executor := newSigningExecutor(
+		[]*signer{{
+			wallet: wallet{
+				publicKey:             walletPublicKey,
+				signingGroupOperators: signingGroupOperators,
+			},
+			signingGroupMemberIndex: memberIndex,
+			privateKeyShare:         privateKeyShare,
+		}},
+		broadcastChannel,
+		membershipValidator,
+		groupParameters,
+		generator.NewProtocolLatch(),
+		getCurrentBlock,
+		waitForBlock,
+		signingAttemptsLimit,
+	)
+	_, _, _, err := executor.sign(ctx, message, startBlock)
+	return err
+}
+
+// VerifC12SigningAttemptBlocks re-exports the block length of one
+// signing attempt and its announcement/protocol parts.
+func VerifC12SigningAttemptBlocks() (delay, announcement, protocol, total uint64) {
+	return signingAttemptAnnouncementDelayBlocks,
+		signingAttemptAnnouncementActiveBlocks,
+		signingAttemptMaximumProtocolBlocks,
+		uint64(signingAttemptMaximumBlocks())
 }
